@@ -66,6 +66,11 @@ def eligible_lines(path):
     return src, out
 
 
+MODE = os.environ.get("MUT_MODE", "ops")       # "ops" (operator mutants) or "delete" (statement deletion)
+if MODE == "delete":
+    OUT = os.path.join(ROOT, "build", "mut-delete")
+
+
 def gen():
     os.makedirs(OUT, exist_ok=True)
     muts = []
@@ -92,6 +97,13 @@ def gen():
                     if newl == code:
                         continue
                     muts.append({"file": path, "line": i + 1, "old": l, "new": newl + l[len(code):]})
+            # statement deletion: a single-line statement that is not a declaration (assignment, compound assignment, call)
+            st = code.strip()
+            if MODE == "delete" and st.endswith(";") and not st.startswith(("let ", "return", "use ", "pub ", "const ", "static ", "type ", "break", "continue")) \
+                    and re.match(r"^[\w\*\.\[\]\(\)&]+(\s*[-+*|&]?=\s|\.|\(|::)", st):
+                muts.append({"file": path, "line": i + 1, "old": l, "new": l[:len(l) - len(l.lstrip())] + "/* deleted */"})
+    if MODE == "delete":
+        muts = [m for m in muts if m["new"].strip() == "/* deleted */"]
     # dedupe, stable ids
     seen, res = set(), []
     for m in muts:
